@@ -12,6 +12,15 @@ from .interp import Interp, Policy, ProgExc, SourceIndex
 from .replay import show
 
 
+import re as _re
+
+def _norm(text):
+    """results are compared as text; unique ids of freshly created symbols
+    (Sym repr `name_<id>`) and object addresses differ between the two runs"""
+    text = _re.sub(r"_(\d{3,})\b", "_#", text)
+    return _re.sub(r"0x[0-9a-f]+", "0x#", text)
+
+
 class _NoModular(DriverPolicy):
     def on_call(self, interp, fn, args, kwargs):
         return NotImplemented
@@ -91,7 +100,7 @@ def crosscheck_contract(c, n=40, seed=0):
                                 r = it.call(fn, list(pos), {x: v for x, v in argd.items() if x != "__args__"})
                             else:
                                 r = it.call(fn, [], dict(argd))
-                    outs.append(("ok", show(r)))
+                    outs.append(("ok", _norm(show(r))))
                 except ProgExc as pe:
                     outs.append(("exc", type(pe.exc).__name__))
                 except Unsupported as u:
